@@ -278,7 +278,7 @@ DIMS = {
     'ns': ['', 'N', 'N.M'],
     'place': ['same', 'parent', 'global', 'sibling'],
     'spell': ['simple', 'partial', 'full'],
-    'nprov': [1, 2], 'nreq': [0, 1, 2], 'ninj': [0, 1],
+    'nprov': [0, 1, 2], 'nreq': [0, 1, 2], 'ninj': [0, 1],
     'share': [True, False],
     'menu': ['full', 'empty', 'inonly', 'outonly'],
     'names': ['plain', 'caps', 'under'],
@@ -345,7 +345,7 @@ def valid_point(pt):
     if pt['spell'] == 'partial' and len(ns) < 2 and pt['place'] == 'same':
         return False
     if pt['mc'] != 'none':
-        if pt['psem'] != 'MTS':
+        if pt['psem'] != 'MTS' or pt['nprov'] < 1:
             return False
         if pt['mc'].startswith('p1') and pt['nprov'] < 2:
             return False
